@@ -92,7 +92,8 @@ def run_case(case, acc, order):
                 for c, (D, expw) in c08.reference_cluster_waveforms(
                         T, st, sc, pos_, sh_, m.n_closest_channels).items():
                     acc.step(True, 'cluster_waveforms')
-                    if c < Cw.shape[0] and not np.allclose(Cw[c][:, D], expw, rtol=1e-5, atol=1e-6):
+                    # (computed in double precision from the stored template values: no slack needed)
+                    if c < Cw.shape[0] and not np.allclose(Cw[c][:, D], expw, rtol=1e-11, atol=1e-12):
                         bad.append(('cluster_waveforms', 'definition',
                                     {'cluster': int(c), 'channels': D, 'mean': describe(expw)},
                                     describe(Cw[c][:, D])))
